@@ -137,6 +137,20 @@ PROGFUZZ = {
               "round or re-derived in a later round (or already an input); distinct (program text, input) pairs."),
         assumptions=["thread interleavings are sampled, not enumerated", "rustc compiles the generated crate faithfully", "the reference evaluator is correct"],
     ),
+    "C13": dict(
+        quick=dict(programs=100, cases=20), thorough=dict(programs=800, cases=60),
+        level="exploration",
+        rule=("Histories (proptest vec of ops, shrunk as one value) over generated programs from the full grammar, serial and "
+              "ascent_par! (pools 1 and 4): initial facts, then run() / push(tuple into any plain relation, derived ones included) "
+              "in any order, always ending with run(); run(). Pushes happen only for programs without negation / aggregation "
+              "(the property's premise); a tuple the relation already holds is not pushed again. Model: the multiset of everything "
+              "pushed so far. Oracle after every run(): relations equal the reference evaluator's result on the model (sets, lattice "
+              "values, row multisets); a panic is a violation. Non-trivial: a push after a run whose consequences need a join with "
+              "tuples stored by an earlier run (reference: some new tuple is derivable neither before the push nor from the pushed "
+              "facts alone), or for idempotence a re-run of a program with aggregates / negation on >= 2 input rows; distinct "
+              "(program text, initial facts, history)."),
+        assumptions=["rustc compiles the generated crate faithfully", "the reference evaluator is correct", "pushes go to plain relations only (a caller cannot push a second row for a lattice key)"],
+    ),
 }
 
 
